@@ -26,6 +26,13 @@ def Shape (a : Algo) (len : Nat) (s0 s1 : Spec) : Prop :=
   | .raders => len = s0.len + 1
   | .bluesteins n => len = n ∧ 1 ≤ n ∧ 2 * n - 1 ≤ s0.len
   | .radixN | .radix4 | .radix3 => s0.len ∣ len ∧ 0 < s0.len
+  | .avxMixedRadix => s0.len ∣ len ∧ 0 < s0.len
+  -- `RadersAvx2::perform_fft_immut` hands its first inner call `scratch[1..len]`, i.e. only `len - 1` elements: the
+  -- constructor does NOT assert `inner.inplace ≤ inner.len`; the AVX planner guarantees it (`Props/C08Simd`)
+  | .avxRaders => len = s0.len + 1 ∧ s0.inplace ≤ s0.len
+  | .avxBluesteins n => len = n ∧ 1 ≤ n ∧ 2 * n - 1 ≤ s0.len
+  -- `SseRadix4` hands its base an EMPTY scratch; the SSE planner only ever uses butterflies as bases
+  | .sseRadix4 => s0.len ∣ len ∧ 0 < s0.len ∧ s0.inplace = 0
 
 /-- the `*Small` part of `Shape` is exactly "the constructor asserts pass" -/
 theorem smallAsserts_ok_iff (name : String) (w h : Spec) :
@@ -55,7 +62,10 @@ macro "exec_close" : tactic => `(tactic| (
   (try simp only [Gen.mixedRadix_inplace, Gen.mixedRadix_oop, Gen.mixedRadix_immut, Gen.goodThomas_inplace,
     Gen.goodThomas_oop, Gen.goodThomas_immut, Gen.raders_inplace, Gen.raders_oop, Gen.raders_immut,
     Gen.bluesteins_scratch, Gen.radixN_inplace, Gen.radixN_oop, Gen.radixN_immut, Gen.radix4_inplace,
-    Gen.radix4_oop, Gen.radix4_immut, Gen.radix3_inplace, Gen.radix3_oop, Gen.radix3_immut] at *)
+    Gen.radix4_oop, Gen.radix4_immut, Gen.radix3_inplace, Gen.radix3_oop, Gen.radix3_immut,
+    Gen.avxMixedRadix_inplace, Gen.avxMixedRadix_oop, Gen.avxMixedRadix_immut, Gen.avxRaders_inplace,
+    Gen.avxRaders_oop, Gen.avxRaders_immut, Gen.avxBluesteins_scratch, Gen.sseRadix4_inplace, Gen.sseRadix4_oop,
+    Gen.sseRadix4_immut] at *)
   repeat' split
   all_goals (try dsimp only at *)
   all_goals (try simp only [bufLen] at *)
@@ -121,6 +131,17 @@ theorem exec_split_points_valid (len : Nat) (s0 s1 : Spec) :
   all_goals simp only [advertised]
   all_goals exec_close
 
+/-- the same for the SIMD algorithms: `split_at_mut(self.len())` of `MixedRadix*xnAvx` (in-place and immutable entries)
+and of `RadersAvx2`, `split_at_mut(inner length)` of `BluesteinsAvx` -/
+theorem exec_split_points_valid_simd (len : Nat) (s0 s1 : Spec) :
+    len ≤ advertised .avxMixedRadix .inplace len s0 s1 ∧ len ≤ advertised .avxMixedRadix .immut len s0 s1 ∧
+    (len = s0.len + 1 → len ≤ advertised .avxRaders .inplace len s0 s1 ∧ len ≤ advertised .avxRaders .immut len s0 s1) ∧
+    (∀ n e, s0.len ≤ advertised (.avxBluesteins n) e len s0 s1) := by
+  refine ⟨?_, ?_, ?_, ?_⟩
+  any_goals intro n e
+  all_goals simp only [advertised]
+  all_goals exec_close
+
 theorem exec_calls_in_bounds (a : Algo) (e : EntryKind) (len : Nat) (s0 s1 : Spec) (h : Shape a len s0 s1) :
     ∀ c ∈ calls a e len s0 s1 (advertised a e len s0 s1),
       c.data.off + c.data.len ≤ bufLen len (advertised a e len s0 s1) c.data.buf ∧
@@ -143,7 +164,7 @@ theorem Region.disjoint_pickNonEmpty {d a b : Region} (ha : d.Disjoint a) (hb : 
     d.Disjoint (pickNonEmpty a b) := by
   unfold pickNonEmpty; split <;> assumption
 
-theorem exec_data_scratch_disjoint (a : Algo) (e : EntryKind) (len : Nat) (s0 s1 : Spec) (adv : Nat) :
+theorem exec_data_scratch_disjoint (a : Algo) (e : EntryKind) (len : Nat) (s0 s1 : Spec) (adv : Nat) (hl : 0 < len) :
     ∀ c ∈ calls a e len s0 s1 adv, c.data.Disjoint c.scratch := by
   intro c hc
   exec_cases a e hc
@@ -155,7 +176,7 @@ theorem exec_data_scratch_disjoint (a : Algo) (e : EntryKind) (len : Nat) (s0 s1
   all_goals simp only [reg, Region.Disjoint]
   all_goals first | (left; decide) | (right; omega)
 
-theorem exec_out_disjoint (a : Algo) (e : EntryKind) (len : Nat) (s0 s1 : Spec) (adv : Nat) :
+theorem exec_out_disjoint (a : Algo) (e : EntryKind) (len : Nat) (s0 s1 : Spec) (adv : Nat) (_hl : 0 < len) :
     ∀ c ∈ calls a e len s0 s1 adv, ∀ r, c.out = some r → c.data.Disjoint r ∧ r.Disjoint c.scratch := by
   intro c hc r hr
   exec_cases a e hc
@@ -165,10 +186,10 @@ theorem exec_out_disjoint (a : Algo) (e : EntryKind) (len : Nat) (s0 s1 : Spec) 
   all_goals (try dsimp only)
   all_goals first | (left; decide) | (right; omega)
 
-theorem exec_calls_disjoint (a : Algo) (e : EntryKind) (len : Nat) (s0 s1 : Spec) (adv : Nat) :
+theorem exec_calls_disjoint (a : Algo) (e : EntryKind) (len : Nat) (s0 s1 : Spec) (adv : Nat) (hl : 0 < len) :
     ∀ c ∈ calls a e len s0 s1 adv,
       c.data.Disjoint c.scratch ∧ (∀ r, c.out = some r → c.data.Disjoint r ∧ r.Disjoint c.scratch) :=
-  fun c hc => ⟨exec_data_scratch_disjoint a e len s0 s1 adv c hc, exec_out_disjoint a e len s0 s1 adv c hc⟩
+  fun c hc => ⟨exec_data_scratch_disjoint a e len s0 s1 adv hl c hc, exec_out_disjoint a e len s0 s1 adv hl c hc⟩
 
 /-! ### C15 -/
 
